@@ -300,6 +300,15 @@ opaque here); the walker's regions are the expected ones, computed inside Lean -
 example : ((walk (Samples.sampleDoc.encT 4)).toOption.map (·.regions)) =
     some ((fileSpans 4 Samples.sampleDoc).map Span.region) := by decide +kernel
 example : (fileSpans 4 Samples.sampleDoc).length = 30 := by decide +kernel
+/-- … and the sub-values are all there: the "channel-data" spans are the encodings of all 8 stored
+channels, the "layer-record" spans those of the 6 (refreshed) records, in order -/
+example : ∃ li, Samples.sampleDoc.layerAndMask.layerInfo = some li ∧
+    (((fileSpans 4 Samples.sampleDoc).filter (·.region.kind == "channel-data")).map Span.bytes =
+      ((li.channels.getD []).flatten.map ChannelData.encT)) ∧
+    (((fileSpans 4 Samples.sampleDoc).filter (·.region.kind == "layer-record")).map Span.bytes =
+      ((li.refresh.records.getD []).map (LayerRecord.encT 2))) ∧
+    (li.channels.getD []).flatten.length = 8 ∧ (li.refresh.records.getD []).length = 6 :=
+  ⟨_, rfl, by decide +kernel, by decide +kernel, by decide +kernel, by decide +kernel⟩
 
 /-! ### every length prefix is the size of what follows, up to the documented padding -/
 
